@@ -66,7 +66,7 @@ where insertKey (k : Key) : List Key → List Key
     indices), or the cursor item alone when nothing is selected / in single mode -/
 def specAccept (st : St) (S : KSet) (cursor : Nat) : List Nat :=
   let ks := (sortKeys S).map (·.2)
-  if (!st.sel.multi || S.isEmpty) && !st.sel.listed.isEmpty then ks ++ [cursor] else ks
+  if (!st.sel.multi || S.isEmpty) && !st.sel.listed.isEmpty then ks ++ ((st.sel.listed[cursor]?).map (·.idx)).toList else ks
 
 /-- the abstraction: the key set of a model state -/
 def keys (s : Sel) : KSet := s.selected.map (·.1)
